@@ -537,13 +537,21 @@ def rule_r5(ctx):
             if not (isinstance(t, ast.Compare) and isinstance(t.left, ast.Name) and t.left.id in toks and isinstance(t.comparators[0], ast.Constant)):
                 continue
             tok = t.comparators[0].value
-            got = [form(s.value) for s in iff.body if isinstance(s, ast.Assign)]
+            # `if tok == '+': A else: B` and `if tok != '+': B else: A` say the same thing: the arm for the token is the one
+            # in which the equality holds
+            eq = isinstance(t.ops[0], (ast.Eq, ast.Is))
+            if not eq and not isinstance(t.ops[0], (ast.NotEq, ast.IsNot)):
+                continue
+            arm_tok, arm_rest = (iff.body, iff.orelse) if eq else (iff.orelse, iff.body)
+            if not arm_tok:
+                continue
+            got = [form(s.value) for s in arm_tok if isinstance(s, ast.Assign)]
             remaining.discard(tok)
             ctx.check("R5", f"parser {tok!r} → {want.get(tok)}", got == [want.get(tok)], f, iff,
                       f"token {tok!r} builds {got} instead of {want.get(tok)!r}",
                       how="branch body compared with the operator's SymPy form", construct=f"token {tok} builds {got}")
-            if iff.orelse and not isinstance(iff.orelse[0], ast.If):
-                got = [form(s.value) for s in iff.orelse if isinstance(s, ast.Assign)]
+            if arm_rest and not isinstance(arm_rest[0], ast.If):
+                got = [form(s.value) for s in arm_rest if isinstance(s, ast.Assign)]
                 ctx.check("R5", f"parser else-branch ({sorted(remaining)}) → SymPy form",
                           len(remaining) == 1 and got == [want.get(next(iter(remaining)))], f, iff,
                           f"the remaining token(s) {sorted(remaining)} build {got}",
@@ -676,14 +684,21 @@ def rule_r8(ctx):
         for lp in (x for x in own_nodes(f.node) if isinstance(x, ast.For) and isinstance(x.target, ast.Name)):
             d = lp.target.id
             # the branch for symbolic dimensions: `if isinstance(d, SymbolicDim):` (possibly an elif)
-            for br in (x for x in ast.walk(lp) if isinstance(x, ast.If) and isinstance(x.test, ast.Call) and dotted_of(x.test.func) == "isinstance"
-                       and len(x.test.args) == 2 and norm(x.test.args[0]) == d and "SymbolicDim" in norm(x.test.args[1])):
+            for br in (x for x in ast.walk(lp) if isinstance(x, ast.If)):
+                t, positive = br.test, True
+                while isinstance(t, ast.UnaryOp) and isinstance(t.op, ast.Not):
+                    t, positive = t.operand, not positive
+                if not (isinstance(t, ast.Call) and dotted_of(t.func) == "isinstance" and len(t.args) == 2 and norm(t.args[0]) == d and "SymbolicDim" in norm(t.args[1])):
+                    continue
+                arm = br.body if positive else br.orelse  # the statements that run for a symbolic dimension
+                if not arm:
+                    continue
                 n += 1
-                deleg = [c for st in br.body for c in ast.walk(st) if isinstance(c, ast.Call) and isinstance(c.func, ast.Attribute) and c.func.attr == name and norm(c.func.value) == d]
-                bare = [c for st in br.body for c in ast.walk(st) if isinstance(c, ast.Call) and isinstance(c.func, ast.Attribute) and c.func.attr in ("append", "add", "extend", "update")
+                deleg = [c for st in arm for c in ast.walk(st) if isinstance(c, ast.Call) and isinstance(c.func, ast.Attribute) and c.func.attr == name and norm(c.func.value) == d]
+                bare = [c for st in arm for c in ast.walk(st) if isinstance(c, ast.Call) and isinstance(c.func, ast.Attribute) and c.func.attr in ("append", "add", "extend", "update")
                         and any(isinstance(a, ast.Name) and a.id == d for a in c.args)]
-                exits = [x for st in br.body for x in ast.walk(st) if isinstance(x, (ast.Continue, ast.Break, ast.Return))]
-                cond = [x for st in br.body for x in ast.walk(st) if isinstance(x, (ast.If, ast.IfExp)) and any(c is y for c in deleg for y in ast.walk(x))]
+                exits = [x for st in arm for x in ast.walk(st) if isinstance(x, (ast.Continue, ast.Break, ast.Return))]
+                cond = [x for st in arm for x in ast.walk(st) if isinstance(x, (ast.If, ast.IfExp)) and any(c is y for c in deleg for y in ast.walk(x))]
                 bad = (bare or exits or cond or ([] if deleg else [br]))
                 ctx.check("R8", f"Shape.{name}: every symbolic dimension goes through {d}.{name}(…)", not bad, f, bad[0] if bad else br,
                           f"`{norm(bad[0])[:70] if bad else ''}`: a symbolic dimension can leave Shape.{name} without `{d}.{name}(…)` having been applied to it - with a partial "
